@@ -3,6 +3,7 @@ import Coraza.Model.Engine
 import Coraza.Model.Macro
 import Coraza.Model.Recycle
 import Coraza.Model.Operators
+import Coraza.Model.Regex
 import Driver.Tf
 import Driver.Op
 /-!
@@ -23,7 +24,14 @@ def envTf (name : String) (v : Bytes) : Bytes × Bool × Bool :=
   | some r => (r.out, r.changed, r.err)
   | none => (v, false, false)
 
-def env : Env := ⟨envOp, envTf⟩
+/-- regex keys: Go's `regexp.MustCompile(p).MatchString(k)` on the fragment of Model/Regex.lean;
+    cases with an expression outside the fragment are `outsideModel` -/
+def envRx (p k : Bytes) : Bool :=
+  match Regex.parse {} p with
+  | some r => Regex.search r k
+  | none => false
+
+def env : Env := ⟨envOp, envTf, envRx⟩
 
 def hexField (j : Json) (k : String) : Except String Bytes := do
   let s ← j.getObjValAs? String k
@@ -42,20 +50,23 @@ def macroOf (b : Bytes) : Except String Engine.Macro :=
   | none => throw "macro"
 
 /-- one written target followed by its negations, in textual order -/
-def parseTarget (j : Json) : Except String (List TItem) := do
+def parseTarget (mode : RxMode) (j : Json) : Except String (List TItem) := do
   let v ← parseVarName (← j.getObjValAs? String "v")
   let k ← hexField j "k"
   let c ← j.getObjValAs? Bool "c"
   let xs ← j.getObjValAs? (Array String) "x"
   let exc ← xs.toList.mapM fun s => match Bytes.ofField s with | some b => pure b | none => throw "bad exc"
-  pure (TItem.incl ⟨v, k, c, []⟩ :: exc.map (TItem.neg v))
+  -- "o": only the negations are written (`!VAR:key` without a positive target; update directives)
+  let only := match j.getObjValAs? Bool "o" with | .ok b => b | _ => false
+  let negs := exc.map (fun e => TItem.neg v (mkExc mode v e))
+  pure (if only then negs else TItem.incl (mkTarget mode v k c) :: negs)
 
 def parseMode (s : String) : Except String EngineMode :=
   match s with
   | "On" => pure .on | "DetectionOnly" => pure .detectionOnly | "Off" => pure .off
   | _ => throw "mode"
 
-def parseNAct (j : Json) : Except String NAct := do
+def parseNAct (mode : RxMode) (j : Json) : Except String NAct := do
   let n ← j.getObjValAs? String "n"
   match n with
   | "setvar" =>
@@ -72,8 +83,8 @@ def parseNAct (j : Json) : Except String NAct := do
   | "ctlRemoveByRange" => pure (.ctlRemoveByRange (← j.getObjValAs? Nat "lo") (← j.getObjValAs? Nat "hi"))
   | "ctlRemoveByTag" => pure (.ctlRemoveByTag (← hexField j "tag"))
   | "ctlRemoveTargetById" =>
-    pure (.ctlRemoveTargetById (← j.getObjValAs? Nat "lo") (← j.getObjValAs? Nat "hi")
-      (← parseVarName (← j.getObjValAs? String "v")) (lower (← hexField j "k")))
+    let v ← parseVarName (← j.getObjValAs? String "v")
+    pure (.ctlRemoveTargetById (← j.getObjValAs? Nat "lo") (← j.getObjValAs? Nat "hi") v (mkCtlExc mode v (← hexField j "k")))
   | "ctlAuditEngine" =>
     let m ← j.getObjValAs? String "m"
     pure (.ctlAuditEngine (match m with | "On" => .on | "RelevantOnly" => .relevantOnly | _ => .off))
@@ -93,13 +104,13 @@ def parseOp (j : Json) : Except String (Option Operator) := do
     pure (some ⟨n, m, neg⟩)
   | .error _ => pure none
 
-def parseLink (j : Json) : Except String Link := do
-  let items ← (← j.getObjValAs? (Array Json) "tg").toList.mapM parseTarget
+def parseLink (mode : RxMode) (j : Json) : Except String Link := do
+  let items ← (← j.getObjValAs? (Array Json) "tg").toList.mapM (parseTarget mode)
   let tg := compileTargets items.flatten
   let op ← parseOp j
   let tfs ← j.getObjValAs? (Array String) "tfs"
   let mm ← j.getObjValAs? Bool "mm"
-  let na ← (← j.getObjValAs? (Array Json) "na").toList.mapM parseNAct
+  let na ← (← j.getObjValAs? (Array Json) "na").toList.mapM (parseNAct mode)
   pure ⟨tg, op, tfs.toList, mm, na⟩
 
 def parseDisr (j : Json) : Except String Disr := do
@@ -110,11 +121,11 @@ def parseDisr (j : Json) : Except String Disr := do
   | "allow" => pure (.allow .all) | "allow:phase" => pure (.allow .phase) | "allow:request" => pure (.allow .request)
   | _ => throw s!"disr {d}"
 
-def parseRule (j : Json) : Except String Rule := do
+def parseRule (mode : RxMode) (j : Json) : Except String Rule := do
   let id ← j.getObjValAs? Nat "id"
   let ph ← j.getObjValAs? Nat "ph"
   let mk ← hexField j "mk"
-  let links ← (← j.getObjValAs? (Array Json) "links").toList.mapM parseLink
+  let links ← (← j.getObjValAs? (Array Json) "links").toList.mapM (parseLink mode)
   let disr ← parseDisr j
   let st ← j.getObjValAs? Nat "st"
   let skip ← j.getObjValAs? Nat "skip"
@@ -125,6 +136,50 @@ def parseRule (j : Json) : Except String Rule := do
   let log ← j.getObjValAs? Bool "log"
   let audit ← j.getObjValAs? Bool "audit"
   pure ⟨id, ph, mk, links, disr, st, skip, sa, if sev < 0 then none else some sev.toNat, tags, log, audit⟩
+
+def parseSel (j : Json) : Except String IdSel := do
+  let a ← fromJson? (α := Array Nat) j
+  match a.toList with
+  | [x] => pure (.one x)
+  | [x, y] => pure (.range x y)
+  | _ => throw "sel"
+
+def parseLogAct (s : String) : Except String LogAct :=
+  match s with
+  | "log" => pure .log | "nolog" => pure .nolog | "auditlog" => pure .auditlog | "noauditlog" => pure .noauditlog
+  | _ => throw "logact"
+
+def parseUpd (mode : RxMode) (j : Json) : Except String ActUpd := do
+  let d ← j.getObjValAs? String "disr"
+  let disr ← if d == "-" then pure none else (do let x ← parseDisr j; pure (some x))
+  let st ← j.getObjValAs? Nat "st"
+  let sev ← j.getObjValAs? Int "sev"
+  let tags ← (← j.getObjValAs? (Array String) "tags").toList.mapM fun s =>
+    match Bytes.ofField s with | some b => pure b | none => throw "tag"
+  let na ← (← j.getObjValAs? (Array Json) "na").toList.mapM (parseNAct mode)
+  let logs ← (← j.getObjValAs? (Array String) "logs").toList.mapM parseLogAct
+  let skip ← j.getObjValAs? Nat "skip"
+  let sa ← hexField j "sa"
+  pure { disr := disr, status := if st == 0 then none else some st, sev := if sev < 0 then none else some sev.toNat,
+         tags := tags, nacts := na, logs := logs, skip := if skip == 0 then none else some skip,
+         skipAfter := if sa.isEmpty then none else some sa }
+
+def parseItem (mode : RxMode) (j : Json) : Except String Item := do
+  match j.getObjValAs? String "dir" with
+  | .ok d =>
+    let sels : Except String (List IdSel) := do
+      (← j.getObjValAs? (Array Json) "sels").toList.mapM parseSel
+    let items : Except String (List TItem) := do
+      let l ← (← j.getObjValAs? (Array Json) "tg").toList.mapM (parseTarget mode)
+      pure l.flatten
+    match d with
+    | "removeById" => pure (.dir (.removeById (← sels)))
+    | "removeByTag" => pure (.dir (.removeByTag (← hexField j "tag")))
+    | "updateTargetById" => pure (.dir (.updateTargetById (← sels) (← items)))
+    | "updateTargetByTag" => pure (.dir (.updateTargetByTag (← hexField j "tag") (← items)))
+    | "updateActionById" => pure (.dir (.updateActionById (← sels) (← parseUpd mode (← j.getObjVal? "upd"))))
+    | _ => throw s!"dir {d}"
+  | .error _ => pure (.rule (← parseRule mode j))
 
 def parsePairs (j : Json) (k : String) : Except String (List (Bytes × Bytes)) := do
   let arr ← j.getObjValAs? (Array (Array String)) k
@@ -146,16 +201,20 @@ structure Case where
   resp : Bytes := []
   parts : Bytes := []
   mode : EngineMode
-  rules : List Rule
+  rules : List Rule            -- the rule list NewWAF ends up with (buildRules)
+  cfgErr : Bool := false       -- a directive made NewWAF fail
   get : List (Bytes × Bytes)
   post : List (Bytes × Bytes)
   hdr : List (Bytes × Bytes)
   calls : List Call
 
-def parseCase (s : String) : Except String Case := do
+def parseCase (s : String) (rxm : RxMode := .code) : Except String Case := do
   let j ← Json.parse s
   let mode ← parseMode (← j.getObjValAs? String "mode")
-  let rules ← (← j.getObjValAs? (Array Json) "rules").toList.mapM parseRule
+  let items ← (← j.getObjValAs? (Array Json) "rules").toList.mapM (parseItem rxm)
+  let (rules, cfgErr) := match buildRules items with
+    | some rs => (rs, false)
+    | none => ([], true)
   let get ← parsePairs j "get"
   let post ← parsePairs j "post"
   let hdr ← parsePairs j "hdr"
@@ -165,7 +224,7 @@ def parseCase (s : String) : Except String Case := do
   let rs := match j.getObjValAs? String "rs" with | .ok s => s | _ => "-"
   let resp := match j.getObjValAs? String "resp" with | .ok s => (Bytes.ofField s).getD [] | _ => []
   let parts := match j.getObjValAs? String "parts" with | .ok s => (Bytes.ofField s).getD [] | _ => []
-  pure { ae := ae, rs := rs, resp := resp, parts := parts, mode := mode, rules := rules, get := get, post := post, hdr := hdr, calls := calls }
+  pure { ae := ae, rs := rs, resp := resp, parts := parts, mode := mode, rules := rules, cfgErr := cfgErr, get := get, post := post, hdr := hdr, calls := calls }
 
 def initTx (c : Case) : Tx := { feed (newTx c.mode {} c.ae c.parts) c.get c.post c.hdr with respCode := c.resp }
 
@@ -194,24 +253,50 @@ def renderTxc (m : CMap) : String :=
 def orDash (s : String) : String := if s.isEmpty then "-" else s
 
 def runCase (c : Case) : String :=
+  if c.cfgErr then "CONFIGERR" else
   let (tx, outs) := runCalls env c.rules (initTx c) c.calls
   let calls := orDash (",".intercalate (outs.map renderIntr))
   let ms := orDash (",".intercalate (tx.matched.map renderMatched))
   s!"{calls} ; i={renderIntr tx.intr} ; m={ms} ; tx={renderTxc tx.txc} ; hs={tx.highestSeverity} ; cb={orDash (",".intercalate (tx.errCb.map toString))}"
 
 /-- inputs outside the modelled fragment: lowercase/uppercase are modelled on ASCII only -/
+def rulePatterns (r : Rule) : List Bytes :=
+  r.links.flatMap fun l =>
+    (l.targets.flatMap fun t => t.rx.toList ++ t.exc.flatMap (·.rx.toList)) ++
+    (l.nacts.flatMap fun a => match a with | .ctlRemoveTargetById _ _ _ e => e.rx.toList | _ => [])
+
 def outsideModel (c : Case) : Bool :=
   let nonAscii (ps : List (Bytes × Bytes)) := ps.any fun p => !(p.1.all isAscii && p.2.all isAscii)
+  let nonAsciiKey (ps : List (Bytes × Bytes)) := ps.any fun p => !p.1.all isAscii
   let caseTf := c.rules.any fun r => r.links.any fun l => l.tfs.any fun t => t.toLower == "lowercase" || t.toLower == "uppercase"
-  caseTf && (nonAscii c.get || nonAscii c.post || nonAscii c.hdr)
+  let pats := c.rules.flatMap rulePatterns
+  -- regex keys: the expression must be inside the fragment and the keys ASCII (Go matches runes)
+  let rxOut := !pats.isEmpty &&
+    (pats.any (fun p => (Regex.parse {} p).isNone) || nonAsciiKey c.get || nonAsciiKey c.post || nonAsciiKey c.hdr)
+  -- urlDecode turns ASCII text with a percent sign into arbitrary bytes, which a later case transformation may meet
+  let hasTf (n : String) := c.rules.any fun r => r.links.any fun l => l.tfs.any fun t => t.toLower == n
+  let pct (ps : List (Bytes × Bytes)) := ps.any fun p => p.2.contains 0x25
+  let decoded := hasTf "urldecode" && (pct c.get || pct c.post || pct c.hdr)
+  (caseTf && (nonAscii c.get || nonAscii c.post || nonAscii c.hdr || decoded)) || rxOut
 
-def model (args : List String) : Option String :=
+def modelIn (rxm : RxMode) (args : List String) : Option String :=
   match args with
   | [js] =>
-    match parseCase js with
+    match parseCase js rxm with
     | .ok c => if outsideModel c then none else some (runCase c)
     | .error _ => none
   | _ => none
+
+def model (args : List String) : Option String := modelIn .code args
+
+/-- C01 monitor beyond agreement with the model: the outcome must not change when every regex key
+    is read as its specification says (the expression as written, case-insensitively over the
+    case-folded keys) instead of the way the code compiles it. `some why` = the property is false
+    of model and implementation alike (verdict V). -/
+def specViolation (args : List String) : Option String :=
+  match modelIn .code args, modelIn .spec args with
+  | some a, some b => if a == b then none else some "why=regex-key-case"
+  | _, _ => none
 
 /-- the relevant-status patterns the harness uses: pre:<d> = ^d, sub:<d> = d, eq:<d> = ^d$ -/
 def statusMatcher (rs : String) : Option (Bytes → Bool) :=
@@ -227,12 +312,29 @@ def auditModel (args : List String) : Option String :=
   | [js] =>
     match parseCase js with
     | .ok c =>
-      if outsideModel c then none else
+      if outsideModel c then none
+      else if c.cfgErr then some "CONFIGERR" else
       let (tx, _) := runCalls env c.rules (initTx c) c.calls
       let w := auditDecision tx (statusMatcher c.rs)
       let ids := if w then orDash (",".intercalate ((auditMessageIds c.rules tx).map toString)) else "-"
       let parts := if w then Bytes.toField tx.auditParts else "-"
       some s!"w={if w then 1 else 0} ids={ids} parts={parts} cb={orDash (",".intercalate (tx.errCb.map toString))}"
+    | .error _ => none
+  | _ => none
+
+/-- `auditiso <predecessor> <probe>`: by C05_probe (the recycled transaction starts with the WAF's
+    audit engine and parts, whatever ctl did in the predecessor) the probe is logged as on a fresh
+    WAF: record written?, its parts -/
+def auditIsoModel (args : List String) : Option String :=
+  match args with
+  | [_, js] =>
+    match parseCase js with
+    | .ok c =>
+      if outsideModel c then none
+      else if c.cfgErr then some "CONFIGERR" else
+      let (tx, _) := runCalls env c.rules (initTx c) c.calls
+      let w := auditDecision tx (statusMatcher c.rs)
+      some s!"w={if w then 1 else 0} parts={if w then Bytes.toField tx.auditParts else "-"}"
     | .error _ => none
   | _ => none
 
